@@ -1981,13 +1981,13 @@ impl Connection {
         spin: bool,
         is_1rtt: bool,
     ) {
-        self.total_authed_packets += 1;
         // Retry and Version Negotiation packets carry no packet number and are not protected by this
-        // connection's keys: whether genuine or not, they neither keep the connection alive nor
-        // count towards ECN feedback
+        // connection's keys: whether genuine or not, they neither keep the connection alive, count
+        // towards ECN feedback nor count as a processed packet
         let Some(packet) = packet else {
             return;
         };
+        self.total_authed_packets += 1;
         self.reset_keep_alive(now);
         self.reset_idle_timeout(now, space_id);
         self.permit_idle_reset = true;
@@ -2555,7 +2555,8 @@ impl Connection {
                     return Err(TransportError::PROTOCOL_VIOLATION("client sent Retry").into());
                 }
 
-                if self.total_authed_packets > 1
+                if self.total_authed_packets > 0
+                            || self.retry_src_cid.is_some()
                             || packet.payload.len() <= 16 // token + 16 byte tag
                             || !self.crypto.is_valid_retry(
                                 self.rem_cids.active(),
@@ -2745,7 +2746,7 @@ impl Connection {
                 Ok(())
             }
             Header::VersionNegotiate { .. } => {
-                if self.total_authed_packets > 1 {
+                if self.total_authed_packets > 0 || self.retry_src_cid.is_some() {
                     return Ok(());
                 }
                 let supported = packet
